@@ -167,8 +167,8 @@ def files_factory(ns):
             t = T(eng, ns=ns)
             pre = {sfx: t.any('pre' + sfx, [('missing', None), ('bytes', t.raw_bytes('old' + sfx, 36))]) for sfx in ('.pri', '.pub')}
             for sfx, v in pre.items():
-                fs.files['mykey' + sfx] = v
-            g = run_call(it, MC.gen_and_write_keys, ['mykey'])
+                fs.files['my.key' + sfx] = v
+            g = run_call(it, MC.gen_and_write_keys, ['my.key'])
             obs, structural = [], []
             seed_of = lambda mm: conc(mm, g[1][0].raw).hex() if is_ret(g) and isinstance(g[1], tuple) and g[1] and isinstance(g[1][0], KeyObj) and g[1][0].raw.kind == 'raw' else None
             pre_of = lambda mm, v: (lambda x: None if x is None else x.hex())(conc(mm, v))
@@ -177,7 +177,7 @@ def files_factory(ns):
                 structural.append('gen_and_write_keys returns (private, public)')
             else:
                 priv, pub = g[1]
-                l = run_call(it, C.keyfiles_to_keys, ['mykey'])
+                l = run_call(it, C.keyfiles_to_keys, ['my.key'])
                 if not is_ret(l) or not isinstance(l[1], tuple) or len(l[1]) != 2:
                     structural.append('keyfiles_to_keys loads the files just written')
                 else:
@@ -194,7 +194,13 @@ def files_factory(ns):
                         structural.append('generated keys are ed25519 key objects')
                     else:
                         obs.append(oblige(eng, 'the public key written is the public key of the private key written', z3.Not(bytes_eq(it, pub.raw, pubof.raw)), mk))
-                    b = run_call(it, C.keyfiles_to_bytes, ['mykey'])
+                    # the documented file names: <name>.pri and <name>.pub (the name may contain dots) hold the raw key bytes
+                    fpri, fpub = fs.files.get('my.key.pri'), fs.files.get('my.key.pub')
+                    if not isinstance(fpri, (SBytes, bytes)) or not isinstance(fpub, (SBytes, bytes)):
+                        structural.append('the keys are written to <name>.pri and <name>.pub')
+                    else:
+                        obs.append(oblige(eng, '<name>.pri / <name>.pub hold the raw 32-byte values', z3.Not(z3.And(bytes_eq(it, fpri, priv.raw), bytes_eq(it, fpub, pub.raw))), mk))
+                    b = run_call(it, C.keyfiles_to_bytes, ['my.key'])
                     if is_ret(b) and isinstance(b[1], tuple):
                         obs.append(oblige(eng, 'keyfiles_to_bytes returns the raw 32-byte values', z3.Not(z3.And(bytes_eq(it, b[1][0], priv.raw), bytes_eq(it, b[1][1], pub.raw))), mk))
             m = path_model(eng)
@@ -223,7 +229,7 @@ def concrete(case):
             import tempfile
             d = tempfile.mkdtemp(prefix='cct-verif-keys-', dir='/var/tmp')
             try:
-                base = os.path.join(d, 'mykey')
+                base = os.path.join(d, 'my.key')
                 for sfx, hx in (case.get('pre') or {}).items():
                     if hx is not None:
                         with open(base + sfx, 'wb') as fo:
@@ -246,6 +252,11 @@ def concrete(case):
                         probs.append('key files do not load back as equivalent keys')
                 except Exception as e:
                     probs.append(f'the key files just written do not load: {type(e).__name__}: {e}')
+                try:
+                    if open(base + '.pri', 'rb').read() != C.PrivateKey.to_bytes(priv) or open(base + '.pub', 'rb').read() != C.PublicKey.to_bytes(pub):
+                        probs.append('<name>.pri / <name>.pub do not hold the raw key bytes')
+                except OSError as e:
+                    probs.append(f'the keys were not written to <name>.pri / <name>.pub: {type(e).__name__}')
                 if C.PublicKey.to_bytes(priv.public_key()) != C.PublicKey.to_bytes(pub):
                     probs.append('public key written is not the public key of the private key')
                 try:
